@@ -199,6 +199,50 @@ func readAll(rc *ssh.VerifCipher, stream []byte, n int, viaConn bool, seq uint32
 	return strings.Join(rs, ","), seq
 }
 
+var hashes = map[string]crypto.Hash{"sha1": crypto.SHA1, "sha256": crypto.SHA256, "sha512": crypto.SHA512}
+
+// execNpc drives newPacketCipher itself (keys derived by generateKeyMaterial under the direction's tags), writes the
+// history and reads it back through a second cipher built the same way.
+func execNpc(o hx.Op) string {
+	h, ok := hashes[o.Str("hash")]
+	if !ok {
+		return "bad-op"
+	}
+	c2s := o.Str("dir") == "c"
+	seq := uint32(o.U64("seq"))
+	mk := func() (*ssh.VerifCipher, error) {
+		return ssh.VerifNewPacketCipher(c2s, o.Str("c"), o.Str("m"), o.Hex("k"), o.Hex("h"), o.Hex("sid"), h, seq)
+	}
+	wc, err := mk()
+	if err != nil {
+		return "bad-op"
+	}
+	rnd := bytes.NewReader(o.Hex("rnd"))
+	var ws []string
+	var stream []byte
+	nw := 0
+	for _, p := range unHexList(o.Str("p")) {
+		wire, err := wc.WritePacket(rnd, p)
+		if err != nil {
+			ws = append(ws, "E:"+ssh.VerifPacketErrClass(err))
+			break
+		}
+		ws = append(ws, hx.Hex(wire))
+		stream = append(stream, wire...)
+		nw++
+	}
+	rc, err := mk()
+	if err != nil {
+		return "bad-op"
+	}
+	rs, rseq := readAll(rc, stream, nw+1, true, seq)
+	w := "-"
+	if len(ws) > 0 {
+		w = strings.Join(ws, ",")
+	}
+	return fmt.Sprintf("w=%s;seq=%d;r=%s;rseq=%d", w, wc.SeqNum(), rs, rseq)
+}
+
 func macFor(name string, key []byte) (hash.Hash, int) {
 	switch name {
 	case "hmac-sha2-512-etm@openssh.com", "hmac-sha2-512":
@@ -301,6 +345,10 @@ func exec(line string) string {
 		return execW(o)
 	case "prim":
 		return execPrim(o)
+	case "tables":
+		return "ciphers=" + strings.Join(ssh.VerifCipherTable(), ",") + ";macs=" + strings.Join(ssh.VerifMACTable(), ",")
+	case "npc":
+		return execNpc(o)
 	case "km":
 		h, ok := map[string]crypto.Hash{"sha1": crypto.SHA1, "sha256": crypto.SHA256, "sha512": crypto.SHA512}[o.Str("hash")]
 		if !ok {
@@ -327,28 +375,34 @@ func pickPair(r *hx.Rand, g *hx.Gen) (c, m string) {
 	return
 }
 
-func payloadLen(r *hx.Rand, g *hx.Gen) int {
-	switch k := r.Intn(20); {
-	case k < 8:
-		g.Stat("len.1-300")
+var lenClasses = []string{"1-300", "1-40", "block-neighbour", "300-5000", "32k-region"}
+
+func lenOf(r *hx.Rand, cls string) int {
+	switch cls {
+	case "1-300":
 		return r.Range(1, 300)
-	case k < 13:
-		g.Stat("len.1-40")
+	case "1-40":
 		return r.Range(1, 40)
-	case k < 17: // neighbours of block / alignment boundaries
-		g.Stat("len.block-neighbour")
+	case "block-neighbour": // neighbours of block / alignment boundaries
 		n := 8*r.Range(1, 64) + r.Range(-6, 6)
 		if n < 1 {
 			n = 1
 		}
 		return n
-	case k < 19:
-		g.Stat("len.300-5000")
+	case "300-5000":
 		return r.Range(300, 5000)
-	default:
-		g.Stat("len.32k-region")
-		return r.PickInt(32768, 32768-5, 32768+9, 35000)
 	}
+	return r.PickInt(32768, 32768-5, 32768+9, 35000)
+}
+
+// lastLenClasses collects the length classes of the history being built (for the pair.* counters)
+var lastLenClasses = map[string]bool{}
+
+func payloadLen(r *hx.Rand, g *hx.Gen) int {
+	cls := lenClasses[[]int{0, 0, 0, 0, 0, 0, 0, 0, 1, 1, 1, 1, 1, 2, 2, 2, 2, 3, 3, 4}[r.Intn(20)]]
+	g.Stat("len." + cls)
+	lastLenClasses[cls] = true
+	return lenOf(r, cls)
 }
 
 // payload avoids a first byte of 1 (msgDisconnect) and 21 (msgNewKeys): connectionState interprets those
@@ -396,7 +450,18 @@ func emitW(g *hx.Gen, r *hx.Rand, c, m string, seq uint32, lens []int) {
 	g.Stat("cipher." + c)
 	if m != "-" {
 		g.Stat("mac." + m)
+		g.Stat("pair." + c + "+" + m)
 	}
+	for cls := range lastLenClasses {
+		g.Stat("pair." + c + "+len-" + cls)
+		if m != "-" {
+			g.Stat("pair." + m + "+len-" + cls)
+		}
+	}
+	if seq > 0xffffffff-8 {
+		g.Stat("pair." + c + "+seq-wrap")
+	}
+	lastLenClasses = map[string]bool{}
 	g.StatN("packets", len(lens))
 }
 
@@ -415,7 +480,7 @@ func allPairs() [][2]string {
 
 func gen(g *hx.Gen) {
 	r := g.R
-	n := g.Count(600, 12000)
+	n := g.Count(450, 12000)
 
 	// the primitives alone
 	for i := 0; i < 60; i++ {
@@ -451,6 +516,53 @@ func gen(g *hx.Gen) {
 			g.Stat("keymat")
 		}
 	}
+
+	// the package's cipher and MAC tables against the model's
+	g.Emit("tables")
+	// newPacketCipher: every cipher (every key / IV size) x both directions x every exchange hash, MACs rotating
+	// (every MAC key size); K as an mpint-encoded value, session id = or != H
+	allC := append(append(append([]string{}, streamCiphers...), cbcCiphers...), aeadCiphers...)
+	for ci, c := range allC {
+		for di, dir := range []string{"c", "s"} {
+			for hi, hn := range []string{"sha1", "sha256", "sha512"} {
+				m := macs[(ci+di+hi)%len(macs)]
+				if strings.Contains(c, "gcm") || strings.HasPrefix(c, "chacha20") {
+					m = "-"
+				}
+				hv := r.Bytes(map[string]int{"sha1": 20, "sha256": 32, "sha512": 64}[hn])
+				sid := hv
+				if r.Bool() {
+					sid = r.Bytes(len(hv))
+				}
+				ps := [][]byte{payload(r, r.Range(1, 60)), payload(r, r.Range(1, 60))}
+				g.Emit("npc dir=%s c=%s m=%s hash=%s k=%s h=%s sid=%s seq=%d p=%s rnd=%s", dir, c, m, hn,
+					hx.Hex(append([]byte{0, 0, 0, 33, 0}, r.Bytes(32)...)), hx.Hex(hv), hx.Hex(sid), r.U32(), hexList(ps), hx.Hex(r.Bytes(64)))
+				g.Stat("pair." + c + "+dir-" + dir)
+				g.Stat("pair." + c + "+kdf-" + hn)
+				g.Stat("npc")
+			}
+		}
+	}
+	// every cipher and every MAC with every payload-length class at least once
+	for _, c := range append(allC, "none") {
+		for _, cls := range lenClasses {
+			m := "-"
+			if !strings.Contains(c, "gcm") && !strings.HasPrefix(c, "chacha20") && c != "none" {
+				m = hx.Pick(r, macs)
+			}
+			lastLenClasses[cls] = true
+			emitW(g, r, c, m, r.U32(), []int{lenOf(r, cls), lenOf(r, cls)})
+		}
+	}
+	for _, m := range macs {
+		for _, cls := range lenClasses {
+			lastLenClasses[cls] = true
+			emitW(g, r, hx.Pick(r, append(append([]string{}, streamCiphers...), cbcCiphers...)), m, r.U32(), []int{lenOf(r, cls)})
+		}
+	}
+	g.Stat(fmt.Sprintf("table.cipherModes=%d/%d", len(allC), len(ssh.VerifCipherTable())))
+	g.Stat(fmt.Sprintf("table.macModes=%d/%d", len(macs), len(ssh.VerifMACTable())))
+	g.Stat("table.direction-tags=6/6")
 
 	// every pair: payload lengths 1..20 in one history (all alignments), a wrap of the sequence number,
 	// and the region around maxPacket (where the writer accepts what its own reader refuses)
